@@ -9,7 +9,15 @@ type Bytes struct {
 	// when the sequence is a window of another one: this == Base[BaseOff : BaseOff+Len]
 	Base    *Bytes
 	BaseOff *Term
+	// vb: growable array shared by the vectors that are prefixes of one another (a buffer after each write):
+	// appending in place is allowed only to the holder whose end is the array's end, so earlier prefixes
+	// are never disturbed and a long sequence of writes costs amortised O(bytes written)
+	vb *vecBacking
+	// pre: a vector known to be a prefix of this (non-vector) sequence: Norm materialises only the rest
+	pre *Bytes
 }
+
+type vecBacking struct{ data []*Term }
 
 func (b *Bytes) withBase(base *Bytes, off *Term) *Bytes {
 	if base.Base != nil {
@@ -94,6 +102,14 @@ func (b *Bytes) Norm() *Bytes {
 		return b
 	}
 	if n, ok := b.ConstLen(); ok && n >= 0 && n <= normLimit {
+		if b.pre != nil && len(b.pre.Vec) <= n {
+			k := len(b.pre.Vec)
+			tail := make([]*Term, n-k)
+			for i := k; i < n; i++ {
+				tail[i-k] = b.At(CI(int64(i)))
+			}
+			return Concat2(b.pre, VecBytes(tail))
+		}
 		v := make([]*Term, n)
 		for i := 0; i < n; i++ {
 			v[i] = b.At(CI(int64(i)))
@@ -103,11 +119,28 @@ func (b *Bytes) Norm() *Bytes {
 	return b
 }
 func Concat2(a, b *Bytes) *Bytes {
+	if a.Vec != nil && b.Vec == nil {
+		// materialise only the appended part (not the whole result through closures)
+		if n, ok := b.ConstLen(); ok && n >= 0 && n+len(a.Vec) <= normLimit {
+			b = b.Norm()
+		}
+	}
 	if a.Vec != nil && b.Vec != nil {
-		v := make([]*Term, 0, len(a.Vec)+len(b.Vec))
-		v = append(v, a.Vec...)
-		v = append(v, b.Vec...)
-		return VecBytes(v)
+		if len(b.Vec) == 0 {
+			return a
+		}
+		if len(a.Vec) == 0 {
+			return b
+		}
+		bk := a.vb
+		if bk == nil || len(bk.data) != len(a.Vec) {
+			bk = &vecBacking{data: make([]*Term, len(a.Vec), 2*(len(a.Vec)+len(b.Vec)))}
+			copy(bk.data, a.Vec)
+		}
+		bk.data = append(bk.data, b.Vec...)
+		r := VecBytes(bk.data[:len(bk.data):len(bk.data)])
+		r.vb = bk
+		return r
 	}
 	if n, ok := a.ConstLen(); ok && n == 0 {
 		return b
@@ -126,6 +159,11 @@ func Concat2(a, b *Bytes) *Bytes {
 		}
 		return Ite(c, a.At(i), b.At(Sub(i, a.Len)))
 	})
+	if a.Vec != nil {
+		r.pre = a
+	} else {
+		r.pre = a.pre
+	}
 	return r.Norm()
 }
 func SliceBytes(a *Bytes, lo, hi *Term) *Bytes {
